@@ -684,10 +684,25 @@ pub(crate) fn m_wrap_step() {
         let c: u32 = kani::any();
         text.push(char::from_u32(c).unwrap_or('?'));
     }
+    let had_word = word_nonempty || wordlen > 0;
+    let lines_before = wb.text.len();
     let r = if nchars == 0 { wb.flush_word(ws) } else { wb.add_text(&text, ws, &5u8, &6u8) };
     match r {
         Err(_) => assert!(!allow_overflow, "TooNarrow although overflow is allowed"),
         Ok(()) => {
+            // continuation mark of preformatted lines
+            if nchars == 0 {
+                if had_word {
+                    let fits = wslen.checked_add(wordlen).map_or(false, |n| n <= width - line_len);
+                    assert!(wb.pre_wrapped == (ws == WhiteSpace::Pre && !fits),
+                            "continuation mark {} after flushing a word (mode {}, fits {})", wb.pre_wrapped, mode, fits);
+                } else {
+                    assert!(wb.pre_wrapped == pre_wrapped, "continuation mark changed without a pending word");
+                }
+            } else if nchars == 1 && !had_word && ws != WhiteSpace::Normal && text == "\n" {
+                assert!(!wb.pre_wrapped, "a hard newline must end the continuation of a broken preformatted line");
+                assert!(wb.text.len() == lines_before + 1 && wb.line.len == 0 && wb.wslen == 0, "a newline ends the line and resets pending space");
+            }
             if !allow_overflow {
                 assert!(wb.line.len <= width, "current line wider than the block: {} > {}", wb.line.len, width);
                 for l in wb.text.iter() {
